@@ -650,6 +650,14 @@ class Evaluator:
         self._loop_stores[head.id] = out
         return out
 
+    def has_back_edge(self, head: Node) -> bool:
+        """false for one-trip wrappers (`while True: ...; break` produced by helper inlining): nothing is loop-carried"""
+        cache = self.__dict__.setdefault("_back", {})
+        if head.id not in cache:
+            body = self.cfg.reach([m for (m, l) in self.cfg.succ[head.id] if l == "true"], removed={head.id})
+            cache[head.id] = any(p in body for (p, _l) in self.cfg.pred[head.id])
+        return cache[head.id]
+
     def exec_fork(self, st: State, n: Node, label: str) -> list[State]:
         """exec_node, forking the state on an undecided top-level conditional expression
         (`x = a if c else b`, `return a if c else b`) so that each outcome is a path of its own"""
@@ -684,7 +692,7 @@ class Evaluator:
             if k == "withexit":
                 st.events.append(Event("withexit", n.owner, n.id, ncond=len(st.cond)))
             return
-        if k in ("test", "for") and self.havoc and isinstance(n.owner, (ast.While, ast.For)):
+        if k in ("test", "for") and self.havoc and isinstance(n.owner, (ast.While, ast.For)) and self.has_back_edge(n):
             for key in sorted(self.loop_stores(n)):
                 base = key.split(".")[0]
                 full = key
